@@ -81,6 +81,11 @@ class TableFamily(Family):
     def cases(self, pid, seed, tier, mult, stats):
         for c in self.corpus(pid):
             yield c
+        if pid in ("C02", "C03"):
+            # small-scope exhaustive part: on small tables, every (state reached by a prelude, seek target) pair
+            for i in range(budget(tier, 10, 300, mult)):
+                rng = Rng(seed * 3000017 + i * 11 + vlib.hash_tag(pid) % 1000)
+                yield ("table:sys:%d:%d" % (seed, i), F.gen_table_systematic(rng, stats))
         n = budget(tier, 250, 4000, mult)
         for i in range(n):
             rng = Rng(seed * 1000003 + i * 7 + vlib.hash_tag(pid) % 1000)
@@ -681,6 +686,9 @@ class WaFamily(Family):
             keys = F.gen_keys(rng, rng.pick([0, 1, 2, 4, 7]), st, long_ok=False)
             ents = " ".join("%s %s" % (hx(k), hx(F.gen_val(rng, st, 40)[:60])) for k in keys)
             cfgs = "bs=%d ri=%d minbs=16" % (rng.pick([16, 32, 64, 200]), rng.pick([1, 2, 3]))
+            if rng.chance(1, 3):
+                # the same writer with a thread pool: blocks reach write(2) from the result-handler thread (same call sequence)
+                cfgs += " pool=%d" % rng.pick([0, 1, 2, 4]); stats.bump("wa_pooled_writer")
             lines = ["wa.file %s script=- %s" % (cfgs, ents)]
             # number of _write_all calls of the fault-free run: 3 per block + 3 (index) + 1 (trailer) — unknown here, so
             # enumerate single faults at the first 3*len+8 call positions (later positions are simply never reached)
@@ -849,7 +857,7 @@ class CorruptFamily(Family):
             tgt = rng.below(len(frames) + 1)
             o, n, ln = frames[tgt] if tgt < len(frames) else (io, inn, iln)
             nbits = 8 * (ln + 4)               # checksum field (4 bytes) then stored bytes, in file order
-            kind = rng.pick(["1bit", "2bit", "3bit", "burst", "field", "tail", "head"])
+            kind = rng.pick(["1bit", "2bit", "3bit", "burst", "field", "tail", "head", "zerofield", "onesfield"])
             if kind == "burst":
                 start = rng.below(max(1, nbits - 32)); pat = rng.below((1 << 32) - 1) + 1
                 pos = [start + b for b in range(32) if (pat >> b) & 1 and start + b < nbits]
@@ -862,6 +870,12 @@ class CorruptFamily(Family):
                 w = min(64, 8 * ln)
                 base = 32 + (8 * ln - w if kind == "tail" else 0)
                 pos = sorted(set(base + rng.below(max(1, w)) for _ in range(rng.pick([1, 1, 2, 3])))) if ln else [rng.below(32)]
+            elif kind in ("zerofield", "onesfield"):
+                # the burst inside the checksum field that turns it into 00000000 (ff ff ff ff): a "no checksum stored" look
+                fld = int.from_bytes(good[o + n:o + n + 4], "little")
+                pos = [b for b in range(32) if ((fld >> (b % 8 + 8 * (b // 8))) & 1) == (1 if kind == "zerofield" else 0)]
+                if not pos:
+                    pos = [rng.below(32)]
             elif kind == "field":
                 pos = sorted(set(rng.below(32) for _ in range(rng.pick([1, 2, 5]))))
             else:
@@ -1014,6 +1028,9 @@ class CzFamily(Family):
             kind, n = rng.pick(big); algo = 1 + rng.below(5); lvl = rng.pick(CZ_LEVELS)
             if i < 5:
                 algo = 2; kind = ("zero", "ff", "period7", "zero", "text")[i]; n = (1000000, 1048576, 1000000, 4194317, 1048576)[i]; lvl = ("d", "6", "9", "1", "d")[i]
+            elif i < 8:
+                # tens of megabytes of incompressible data through the codecs with a 32-bit size prefix / 32-bit bound arithmetic
+                algo = (3, 4, 3)[i - 5]; kind = "random"; n = (16777216, 16800000, 33555432)[i - 5]; lvl = ("d", "3", "d")[i - 5]
             stats.bump("cz_big_algo_%d" % algo); stats.bump("cz_big_kind_" + kind)
             lines.append("cz.big %d %s %s %d %d" % (algo, lvl, kind, n, seed + i))
         yield ("cz:big:%d" % seed, lines)
@@ -1336,7 +1353,9 @@ class ResGen:
                 self.stats.bump("res_reader_not_a_table")
         elif kind == "pool":
             if sum(1 for o in self.objs.values() if o["k"] == "pool") < 2:
-                i = self.new_id(); self.emit("res.pool %d %d" % (i, rng.pick([1, 2, 4]))); self.objs[i] = {"k": "pool"}; self.deps[i] = []
+                nth = rng.pick([0, 1, 2, 4])        # 0 = a pool object without threads ("multithreading disabled")
+                i = self.new_id(); self.emit("res.pool %d %d" % (i, nth)); self.objs[i] = {"k": "pool", "n": nth}; self.deps[i] = []
+                self.stats.bump("res_pool_threads_%d" % nth)
         elif kind == "merger":
             srcs = [x for x in self.sources() if rng.chance(1, 2)][:4]
             i = self.new_id(); fail = rng.chance(1, 5)
@@ -1369,10 +1388,11 @@ class ResGen:
             pools = [i for i, o in self.objs.items() if o["k"] == "pool"]
             pool = rng.pick(pools) if pools and rng.chance(1, 2) else None
             i = self.new_id(); fail = rng.chance(1, 4); fk = rng.below(6); mem = rng.pick([64, 100, 150, 300, 100000])
-            self.emit("res.sorter %d mem=%d pool=%s merge=%s eo=$i.eo" % (i, mem, "-" if pool is None else str(pool), "fail%d" % fk if fail else "cat"))
-            self.objs[i] = {"k": "sorter", "mem": mem, "pooled": pool is not None, "fk": fk if fail else None, "keys": [], "failed": False, "iterating": False, "unsynced": False}
+            pth = self.objs[pool]["n"] if pool is not None else 0
+            self.emit("res.sorter %d mem=%d pool=%s pth=%d merge=%s eo=$i.eo" % (i, mem, "-" if pool is None else str(pool), pth, "fail%d" % fk if fail else "cat"))
+            self.objs[i] = {"k": "sorter", "mem": mem, "pooled": pool is not None and pth > 0, "fk": fk if fail else None, "keys": [], "failed": False, "iterating": False, "unsynced": False}
             self.deps[i] = [pool] if pool is not None else []
-            self.stats.bump("res_sorter_pooled" if pool is not None else "res_sorter_unpooled")
+            self.stats.bump("res_sorter_pooled" if pool is not None and pth > 0 else "res_sorter_zero_thread_pool" if pool is not None else "res_sorter_unpooled")
         elif kind == "sadd":
             ss = [i for i, o in self.objs.items() if o["k"] == "sorter"]
             if ss:
